@@ -244,6 +244,7 @@ def run_sched(case):
         stats["points"] += len(x.points)
         for v in viol[before:]:
             v["detail"] += " | scenario=%s schedule=%s" % (scn.name, x.choices)
+            v["exact"] = {"scenario": name, "backend": backend, "choices": list(x.choices)}
 
     if not prefix:
         explorer.explore(scn, 0, on_exec)
@@ -324,3 +325,11 @@ def replay(desc):
     for v in r["viol"][:30]:
         print(v["clause"], v["detail"][:500])
     return r["viol"]
+
+
+def replay_exact(ex):
+    scn = make_scenario(ex["scenario"], ex["backend"])
+    viol = explorer.replay_schedule(scn, ex["choices"], lambda x, v: judge(x, v, "replay", "replay"))
+    for v in viol:
+        print(v["clause"], v["detail"][:400])
+    return viol
